@@ -8,7 +8,7 @@ from mc import core, tf, world
 from mc.ref import bencode, model
 
 P0 = 16384
-TOKENS = ["a", " ", "&", "=", "%", "+", "#", "?", "/", "é", "%41", ":", ";",
+TOKENS = ["a", " ", "&", "=", "%", "+", "#", "?", "/", "é", "%41", ",", ":", ";",
           "~", "'", "\"", "<", "\\", "ü/", "日"]
 
 ANN_FORMS = ["none", "announce", "list1", "list2", "both", "both-differ"]
@@ -17,12 +17,12 @@ EXTRA = ["plain", "extra"]
 
 
 def strings(tier):
-    toks = TOKENS[:11] if tier == "quick" else TOKENS
+    toks = TOKENS[:12] if tier == "quick" else TOKENS
     out = []
     maxlen = 2 if tier == "quick" else 3
     for n in range(1, maxlen + 1):
         if n == 3:
-            toks = TOKENS[:11]
+            toks = TOKENS[:12]
         for t in itertools.product(toks, repeat=n):
             s = "".join(t)
             if s in (".", "..") or "/" in s and False:
